@@ -1168,10 +1168,10 @@ func coqFixed() string {
 	for i, n := range named {
 		if n.reg {
 			t := &Ty{K: "named", N: i}
-			regx = append(regx, lib.CoqPair(lib.CoqStr(fmt.Sprintf("n%d", i)), t.coq()))
+			regx = append(regx, lib.CoqPair(lib.CoqStr(fmt.Sprintf("c12_n%d", i)), t.coq()))
 		}
 	}
-	regx = append(regx, lib.CoqPair(lib.CoqStr("e0"), "(TIface 0%N)"))
+	regx = append(regx, lib.CoqPair(lib.CoqStr("c12_e0"), "(TIface 0%N)"))
 	for _, c := range regContainers {
 		regx = append(regx, lib.CoqPair(lib.CoqStr(c.name), c.t.coq()))
 	}
@@ -1347,6 +1347,14 @@ func runProbe(c *Case) (res lib.Result) {
 	}
 	res.Obs = o
 	res.Tags = []string{"class:" + o.Class, "probe:" + c.Probe, "malformed:registry-probe"}
+	// the model's GenericRegister ([register]) on the same registry
+	if p == nil {
+		k, t := lib.CoqStr("c12_n1"), "(TNamed 99%N BInt)"
+		if c.Probe == "dup-type" {
+			k, t = lib.CoqStr("c12_probe_fresh"), "(TPtr (TNamed 1%N BString))"
+		}
+		res.CoqTerm = lib.CoqApp("Probe", "(ckpt_registry ++ regx0)%list", k, t, lib.CoqBool(err != nil))
+	}
 	return
 }
 
